@@ -1,6 +1,7 @@
 import GoHeader.Oracle.Common
 import GoHeader.Sync.TailInit
 import GoHeader.Sync.Head
+import GoHeader.Oracle.Ranges
 namespace GoHeader.Oracle
 open GoHeader GoHeader.SHead
 
@@ -189,6 +190,7 @@ def evalC19CancelledOwner (ins outs : List String) : Verdict :=
   | _, _, _, _ => .bad "C19 cancelledowner"
 
 def evalC19Flight (ins outs : List String) : Verdict :=
+  if kv? ins "kind" == some "stalepending" then evalStalePending ins outs else
   if kv? ins "kind" == some "cancelledowner" then evalC19CancelledOwner ins outs else
   if kv? ins "kind" == some "integrated" then evalC19Integrated ins outs else
   if kv? ins "kind" == some "headrace" then evalC19HeadRace ins outs else
